@@ -271,16 +271,17 @@ func renderStats(status int, body string) (line string, v snapView, err error) {
 	}
 	sort.Strings(arrays)
 	for _, k := range arrays {
-		var us []string
+		type ent struct{ name, s string }
+		var us []ent
 		for _, x := range m[k].([]any) {
 			um, ok := x.(map[string]any)
 			if !ok {
-				us = append(us, "?")
+				us = append(us, ent{"", "?"})
 				continue
 			}
-			us = append(us, strKeys(um, "")+","+numPairs(um))
+			name, _ := um["username"].(string)
+			us = append(us, ent{name, strKeys(um, "") + "," + numPairs(um)})
 			if k == "users" {
-				name, _ := um["username"].(string)
 				f, e := figFromObj(um)
 				if e != nil && err == nil {
 					err = fmt.Errorf("user %q: %w", name, e)
@@ -288,8 +289,13 @@ func renderStats(status int, body string) (line string, v snapView, err error) {
 				v.Users = append(v.Users, userView{name, f})
 			}
 		}
-		sort.Strings(us)
-		line += " " + k + "=[" + strings.Join(us, ";") + "]"
+		// the order of the list is not part of C14: canonical order = by name (byte-wise), as the model prints it
+		sort.SliceStable(us, func(i, j int) bool { return us[i].name < us[j].name })
+		ss := make([]string, len(us))
+		for i := range us {
+			ss[i] = us[i].s
+		}
+		line += " " + k + "=[" + strings.Join(ss, ";") + "]"
 	}
 	sortUsers(v.Users)
 	if _, ok := m["users"]; !ok && err == nil {
